@@ -257,7 +257,15 @@ def policy(ctx: Context) -> None:
     ni = normaliser(prog, init, inline_locals=False)
     for attr in ("Q", "actions_count"):
         st = [s for s in walk_scope(init.node) if isinstance(s, (ast.Assign, ast.AnnAssign)) and is_self_attr(s.targets[0] if isinstance(s, ast.Assign) else s.target, init.self_name, attr)]
-        ok = len(st) == 1 and isinstance(st[0].value, ast.BinOp) and isinstance(st[0].value.op, ast.Mult) and src(st[0].value.right) in ("self.n_actions", "n_actions") and isinstance(st[0].value.left, ast.List) and len(st[0].value.left.elts) == 1
+        if not st:
+            raise AnalysisError(f"{init.loc(init.node)}: `{attr}` is no longer a table the constructor stores (kept in another structure?); how many entries it has cannot be read")
+        v0 = st[0].value
+        # [x] * n, [x for _ in range(n)], np.full(n, x) / np.zeros(n) / np.ones(n) all have n entries
+        comp_ok = isinstance(v0, ast.ListComp) and len(v0.generators) == 1 and not v0.generators[0].ifs and src(v0.generators[0].iter) in ("range(self.n_actions)", "range(n_actions)")
+        np_ok = isinstance(v0, ast.Call) and (dotted(v0.func) or "") in ("np.full", "np.zeros", "np.ones", "numpy.full", "numpy.zeros", "numpy.ones") and v0.args \
+            and src(v0.args[0]) in ("self.n_actions", "n_actions", "(self.n_actions,)", "(n_actions,)")
+        ok = len(st) == 1 and (comp_ok or np_ok or (isinstance(v0, ast.BinOp) and isinstance(v0.op, ast.Mult) and src(v0.right) in ("self.n_actions", "n_actions") and isinstance(v0.left, ast.List)
+                                                   and len(v0.left.elts) == 1))
         ctx.check(ok, "R3.sizes", f"MABEpsilonGreedy.__init__:{attr}", f"{attr} has one entry per action", f"{attr} initialised by `{src(st[0].value) if st else '?'}`", init, st[0] if st else init.node)
 
 
